@@ -138,6 +138,7 @@ func (g *Group[K, V]) doCall(c *call[V], key K, fn func() (V, error)) {
 	// use double-defer to distinguish panic from runtime.Goexit,
 	// more details see https://golang.org/cl/134395
 	defer func() {
+		verifYield(71)
 		// the given function invoked runtime.Goexit
 		if !normalReturn && !recovered {
 			c.err = errGoexit
